@@ -38,6 +38,13 @@ package cachecontroller
 //@   monitor marker
 //@     before call storage.InMemoryCache.Set args _, k, v, ttl : assert k == storage.InvalidIteratorByUserObjectTypeCacheKey(storeID, user, objectType) && typeIs(v, "*storage.InvalidEntityCacheEntry") && as(v, "*storage.InvalidEntityCacheEntry").LastModified == ts
 
+// the controller is built over exactly the given store, cache and TTLs (the marker TTLs decide how long an
+// invalidation stays visible)
+//@ func NewCacheController(ds, cache, ttl, queryCacheTTL, iteratorCacheTTL, opts) (r)
+//@   option nosafety
+//@   loop 0 invariant len(opts) == 0 ==> c != nil && c.ds == ds && c.cache == cache && c.minInvalidationInterval == ttl && c.queryCacheTTL == queryCacheTTL && c.iteratorCacheTTL == iteratorCacheTTL
+//@   ensures @wired len(opts) == 0 ==> typeIs(r, "*cachecontroller.InMemoryCacheController") && as(r, "*cachecontroller.InMemoryCacheController").ds == ds && as(r, "*cachecontroller.InMemoryCacheController").cache == cache && as(r, "*cachecontroller.InMemoryCacheController").minInvalidationInterval == ttl && as(r, "*cachecontroller.InMemoryCacheController").queryCacheTTL == queryCacheTTL && as(r, "*cachecontroller.InMemoryCacheController").iteratorCacheTTL == iteratorCacheTTL
+
 // one invalidation run: the store's changelog marker is refreshed with the time of the NEWEST change read; a failed
 // changelog read invalidates every iterator entry of the store; every selected change invalidates the entries of its
 // object#relation and of its user + object type, in this store
@@ -54,7 +61,12 @@ package cachecontroller
 //@     before call storage.InMemoryCache.Set args _, k, v, ttl : assert k == storage.ChangelogCacheKey(storeID) && typeIs(v, "*storage.ChangelogCacheEntry")
 //@     before call storage.InMemoryCache.Set args _, k, v, ttl : assert gotNewest && newestOK
 //@     before call storage.InMemoryCache.Set args _, k, v, ttl : assert lastChangeTimeActual == newestT && as(v, "*storage.ChangelogCacheEntry").LastModified == lastChangeTimeActual
+//@     ghost gotRead = false
+//@     ghost readAt S_time.Time = readAt
+//@     after call time.Now returning n : readAt = (gotNewest && !gotRead ? n : readAt) ; gotRead = gotRead || gotNewest
 //@     before call (*cachecontroller.InMemoryCacheController).invalidateIteratorCache args _, st : assert st == storeID
+//@     before call (*cachecontroller.InMemoryCacheController).invalidateIteratorCacheByObjectRelation args _, st, o, r, tm : assert gotRead && ts(tm) >= ts(readAt)
+//@     before call (*cachecontroller.InMemoryCacheController).invalidateIteratorCacheByUserAndObjectType args _, st, u, ot, tm : assert gotRead && ts(tm) >= ts(readAt)
 //@     before call (*cachecontroller.InMemoryCacheController).invalidateIteratorCacheByObjectRelation args _, st, o, r, tm : assert st == storeID && o == t.GetObject() && r == t.GetRelation()
 //@     before call (*cachecontroller.InMemoryCacheController).invalidateIteratorCacheByUserAndObjectType args _, st, u, ot, tm : assert st == storeID && u == t.GetUser() && ot == tuple.GetType(t.GetObject())
 
